@@ -6,10 +6,14 @@
   (b) grammar precedence/associativity = the manual's table — over Gen.Precedence, REGENERATED
   (c) algebra of the specification `Cond.eval`, for all environments
   (d) compile_correct: code emitted by the grammar actions, run on the VM model, computes `eval` (fragments)
+  (e) the string operators: sizedstr.c (Gen.SizedStr, REGENERATED) = the byte-list specification, for all byte lists
+  (f) the match-list opcodes: exec.c (Gen.MatchOps, REGENERATED) = what the VM model computes on (offset, length) views
 -/
 import YaraModel.Gen.Precedence
 import YaraModel.Lemmas.Cond
 import YaraModel.Lemmas.CondExecAll
+import YaraModel.Lemmas.SizedStr
+import YaraModel.Lemmas.MatchOps
 namespace YaraModel.Cond
 open YaraModel YaraModel.C YaraModel.CondVm YaraModel.CondCompile YaraModel.Gen.VmOps YaraModel.Gen.Precedence
 
@@ -259,6 +263,144 @@ example : readBytes [(0, [1, 2, 3]), (3, [4, 5])] 2 2 = none ∧ readBytes [(0, 
   decide
 
 
+/-- `P% of S` (repair of finding F44): what OP_OF_PERCENT computes, `floor(found * 100 / count) >= P` in integer arithmetic,
+    is the specification's exact `found / count >= P / 100` — for every count > 0, every found (in particular all
+    found <= count) and EVERY integer P (negative, 0, above 100 included); an undefined P gives undefined. -/
+theorem pct_model_is_spec (found count : Nat) (hc : count > 0) :
+    (∀ p : Int, p ≠ UNDEF → pctResult p found count = b2i (decide ((found : Int) * 100 ≥ p * (count : Int)))) ∧
+    (∀ p : Int, p ≠ UNDEF → pctResult p found count = toVm (pctHolds found count (.int p))) ∧
+    pctResult UNDEF found count = toVm (pctHolds found count .undef) := by
+  have key : ∀ p : Int, p ≠ UNDEF → pctResult p found count = toVm (pctHolds found count (.int p)) :=
+    fun p hp => w_pct (.int p) found count (by omega) (Or.inr ⟨p, rfl, hp⟩)
+  refine ⟨fun p hp => ?_, key, w_pct .undef found count (by omega) (Or.inl rfl)⟩
+  rw [key p hp]
+  simp [pctHolds, toVm]
+
+/-- the situation of F44: 29 of 50 strings satisfy `58% of them` (in double precision 29/50*100 = 57.99…), not `59%` -/
+example : pctResult 58 29 50 = 1 ∧ pctResult 59 29 50 = 0 ∧ pctResult (-3) 0 7 = 1 ∧ pctResult 101 7 7 = 0 := by decide
+
+/-! ## (e) the string operators: sizedstr.c as regenerated = the specification over byte lists -/
+
+open YaraModel.Gen.SizedStr in
+/-- every comparison function of sizedstr.c is inside the translated fragment (a rewrite with strncmp / strstr / a changed
+    loop shape leaves it, and this fails) -/
+theorem sizedstr_translated : YaraModel.Gen.SizedStr.unparsed = [] := rfl
+
+open YaraModel.Gen.SizedStr in
+/-- `contains icontains startswith istartswith endswith iendswith iequals == !=` — for ALL byte lists, including embedded
+    NUL bytes, bytes >= 0x80, empty operands and needles longer than the haystack: the C functions exec.c calls
+    (OP_CONTAINS .. OP_IEQUALS, OP_STR_EQ, OP_STR_NEQ) compute the specification's `strOp` / `cmpStr` -/
+theorem string_ops_model_is_spec (a b : Bytes) :
+    ss_contains a b = strOp .contains a b ∧ ss_icontains a b = strOp .icontains a b ∧
+    ss_startswith a b = strOp .startswith a b ∧ ss_istartswith a b = strOp .istartswith a b ∧
+    ss_endswith a b = strOp .endswith a b ∧ ss_iendswith a b = strOp .iendswith a b ∧
+    decide (ss_icompare a b = 0) = strOp .iequals a b ∧
+    decide (ss_compare a b = 0) = cmpStr .eq a b ∧ decide (ss_compare a b ≠ 0) = cmpStr .neq a b := by
+  have hi : ss_icompare a b = 0 ↔ lowerS a = lowerS b := by
+    rw [SizedStr.ss_icompare_eq]
+    exact SizedStr.cmpWith_zero _ _ lower (fun x y => by simp) a b
+  have hc : ss_compare a b = 0 ↔ a = b := by
+    rw [SizedStr.ss_compare_eq]
+    have := SizedStr.cmpWith_zero (fun x y => x == y) (fun x y => decide (SizedStr.scB x < SizedStr.scB y)) id (fun x y => by simp) a b
+    simpa using this
+  have hs : strCompare a b = 0 ↔ a = b := by
+    rw [SizedStr.strCompare_eq_cmpWith]
+    have := SizedStr.cmpWith_zero (fun x y => x == y) (fun x y => decide (x < y)) id (fun x y => by simp) a b
+    simpa using this
+  refine ⟨SizedStr.ss_contains_eq a b, SizedStr.ss_icontains_eq a b, SizedStr.ss_startswith_eq a b, SizedStr.ss_istartswith_eq a b,
+    SizedStr.ss_endswith_eq a b, SizedStr.ss_iendswith_eq a b, ?_, ?_, ?_⟩
+  · simp only [strOp, hi]
+    by_cases h : lowerS a = lowerS b <;> simp [h]
+  · simp only [cmpStr, cmpInt]
+    rw [Bool.eq_iff_iff]
+    simp only [decide_eq_true_eq, beq_iff_eq]
+    rw [hc, hs]
+  · simp only [cmpStr, cmpInt]
+    rw [Bool.eq_iff_iff]
+    simp only [decide_eq_true_eq, bne_iff_ne, ne_eq]
+    rw [hc, hs]
+
+open YaraModel.Gen.SizedStr in
+/-- `< <= > >=` on strings: ss_compare orders by C `char`, which is SIGNED on the reference platform; it is the
+    specification's (unsigned, memcmp-like) order when all bytes are below 0x80.  Finding F57: beyond that it is not. -/
+theorem string_order_model_is_spec_partial (a b : Bytes) (ha : ∀ x, x ∈ a → x < 128) (hb : ∀ x, x ∈ b → x < 128) :
+    ss_compare a b = strCompare a b := by
+  rw [SizedStr.ss_compare_eq, SizedStr.strCompare_eq_cmpWith]
+  apply SizedStr.cmpWith_congr
+  intro x hx y hy
+  have h1 := ha x hx
+  have h2 := hb y hy
+  rw [UInt8.lt_iff_toNat_lt] at h1 h2
+  have e1 : SizedStr.scB x = (x.toNat : Int) := by unfold SizedStr.scB; split <;> simp at * <;> omega
+  have e2 : SizedStr.scB y = (y.toNat : Int) := by unfold SizedStr.scB; split <;> simp at * <;> omega
+  rw [e1, e2]
+  apply decide_eq_decide.mpr
+  rw [UInt8.lt_iff_toNat_lt]
+  omega
+
+open YaraModel.Gen.SizedStr in
+/-- F57 witness: "\xff" < "a" for ss_compare, "\xff" > "a" for the specification -/
+theorem string_order_signed_witness :
+    ss_compare [0xff] [0x61] = -1 ∧ strCompare [0xff] [0x61] = 1 := by decide
+
+
+open YaraModel.Gen.SizedStr in
+/-- the string primitives of the VM model (the C expressions of exec.c's string opcodes, as regenerated into Gen.VmOps) are
+    the regenerated sizedstr.c functions — so `compile_correct` speaks about them.  Ordering comparisons: for bytes < 0x80. -/
+theorem vm_string_prims_are_sizedstr (a b : Int) :
+    primPure "ss_contains(r1.ss,r2.ss)" [a, b] = C.b2i (ss_contains (decSS a) (decSS b)) ∧
+    primPure "ss_icontains(r1.ss,r2.ss)" [a, b] = C.b2i (ss_icontains (decSS a) (decSS b)) ∧
+    primPure "ss_startswith(r1.ss,r2.ss)" [a, b] = C.b2i (ss_startswith (decSS a) (decSS b)) ∧
+    primPure "ss_istartswith(r1.ss,r2.ss)" [a, b] = C.b2i (ss_istartswith (decSS a) (decSS b)) ∧
+    primPure "ss_endswith(r1.ss,r2.ss)" [a, b] = C.b2i (ss_endswith (decSS a) (decSS b)) ∧
+    primPure "ss_iendswith(r1.ss,r2.ss)" [a, b] = C.b2i (ss_iendswith (decSS a) (decSS b)) ∧
+    primPure "(ss_icompare(r1.ss,r2.ss)==0)" [a, b] = C.b2i (decide (ss_icompare (decSS a) (decSS b) = 0)) ∧
+    primPure "(ss_compare(r1.ss,r2.ss)==0)" [a, b] = C.b2i (decide (ss_compare (decSS a) (decSS b) = 0)) ∧
+    primPure "(ss_compare(r1.ss,r2.ss)!=0)" [a, b] = C.b2i (decide (ss_compare (decSS a) (decSS b) ≠ 0)) ∧
+    ((∀ x, x ∈ decSS a → x < 128) → (∀ x, x ∈ decSS b → x < 128) →
+      primPure "(ss_compare(r1.ss,r2.ss)<0)" [a, b] = C.b2i (decide (ss_compare (decSS a) (decSS b) < 0)) ∧
+      primPure "(ss_compare(r1.ss,r2.ss)<=0)" [a, b] = C.b2i (decide (ss_compare (decSS a) (decSS b) ≤ 0)) ∧
+      primPure "(ss_compare(r1.ss,r2.ss)>0)" [a, b] = C.b2i (decide (ss_compare (decSS a) (decSS b) > 0)) ∧
+      primPure "(ss_compare(r1.ss,r2.ss)>=0)" [a, b] = C.b2i (decide (ss_compare (decSS a) (decSS b) ≥ 0))) := by
+  obtain ⟨h1, h2, h3, h4, h5, h6, h7, h8, h9⟩ := string_ops_model_is_spec (decSS a) (decSS b)
+  refine ⟨by rw [pp_contains, h1], by rw [pp_icontains, h2], by rw [pp_startswith, h3], by rw [pp_istartswith, h4],
+    by rw [pp_endswith, h5], by rw [pp_iendswith, h6], by rw [pp_iequals, h7], by rw [pp_eq, h8], by rw [pp_neq, h9], ?_⟩
+  intro ha hb
+  have h := string_order_model_is_spec_partial (decSS a) (decSS b) ha hb
+  refine ⟨by rw [pp_lt, h]; simp [cmpStr, cmpInt], by rw [pp_le, h]; simp [cmpStr, cmpInt],
+    by rw [pp_gt, h]; simp [cmpStr, cmpInt], by rw [pp_ge, h]; simp [cmpStr, cmpInt]⟩
+
+/-! ## (f) the match-list opcodes of exec.c as regenerated = the VM model's `step` on the (offset, length) views -/
+
+/-- OP_FOUND, OP_COUNT, OP_FOUND_AT, OP_FOUND_IN, OP_COUNT_IN, OP_OFFSET, OP_LENGTH are inside the translated fragment -/
+theorem matchops_translated : YaraModel.Gen.MatchOps.unparsed = [] := rfl
+
+open YaraModel.MatchCore YaraModel.Gen.MatchOps in
+/-- For every match list sorted by offset (scan.c inserts in order; C01) whose offsets / lengths are not the sentinel:
+    the loops of exec.c — which YR_MATCH field they read (`match_length`, not `data_length`; `base + offset`), the 1-based
+    index counting, the inclusive range tests and the early `break`s — compute exactly the values `CondVm.step` pushes
+    for `$a`, `#a`, `$a at x`, `$a in (lo..hi)`, `#a in (lo..hi)`, `@a[x]`, `!a[x]` on the list of (offset, length) views,
+    for matches of any length and any number of matches. -/
+theorem match_ops_model_is_spec (ms : List MatchRec) (x lo hi : Int) (hs : Sorted ms)
+    (hd : ∀ m, m ∈ ms → (view m).1 ≠ C.UNDEF ∧ (view m).2 ≠ C.UNDEF) :
+    OP_FOUND ms = C.b2i (!(ms.map view).isEmpty) ∧
+    OP_COUNT ms = ((ms.map view).length : Int) ∧
+    OP_FOUND_AT ms x = (if isU x then C.UNDEF else C.b2i ((ms.map view).any fun m => m.1 == x)) ∧
+    OP_FOUND_IN ms lo hi = (if isU lo || isU hi then C.UNDEF else C.b2i ((ms.map view).any (inRange lo hi))) ∧
+    OP_COUNT_IN ms lo hi = (if isU lo || isU hi then C.UNDEF else (((ms.map view).countP (inRange lo hi) : Nat) : Int)) ∧
+    OP_OFFSET ms x = (if isU x then C.UNDEF else nthOff (ms.map view) x) ∧
+    OP_LENGTH ms x = (if isU x then C.UNDEF else nthLen (ms.map view) x) :=
+  ⟨found_eq ms, count_eq ms, found_at_eq ms x hs, found_in_eq ms lo hi hs, count_in_eq ms lo hi hs,
+   offset_eq ms x (fun m hm => (hd m hm).1), length_eq ms x (fun m hm => (hd m hm).2)⟩
+
+open YaraModel.MatchCore YaraModel.Gen.MatchOps in
+/-- non-vacuity, and the situation of seeded defect C04-m1: a 700-byte match keeps its length although only 512 bytes
+    of match data are stored -/
+example : OP_LENGTH [⟨0, 3, 700, 512⟩, ⟨0, 900, 2, 2⟩] 1 = 700 ∧ OP_OFFSET [⟨0, 3, 700, 512⟩, ⟨0, 900, 2, 2⟩] 2 = 900 ∧
+    OP_COUNT_IN [⟨0, 3, 700, 512⟩, ⟨0, 900, 2, 2⟩] 3 899 = 1 ∧ Sorted [⟨0, 3, 700, 512⟩, ⟨0, 900, 2, 2⟩] := by
+  refine ⟨by decide, by decide, by decide, ?_⟩
+  simp [Sorted, view, C.add, C.wrap]
+
 /-! ## (d) compile_correct -/
 
 /- **compile_correct** — FULL STATEMENT (long-term goal):
@@ -266,9 +408,9 @@ example : readBytes [(0, [1, 2, 3]), (3, [4, 5])] 2 2 = none ∧ readBytes [(0, 
 theorem compile_correct (env : Env) (henv : EnvOk env) (cond : Expr) (hwf : WF' env (ctxOfEnv env) {} cond) :
     ∃ fuel, modelVerdict env cond fuel = some (ruleVerdict env cond)
 
-   where WF' is WF without its two exclusions: floating-point sub-expressions (Lean's `Float` is opaque to proofs, so
-   `toVm`/`vmToFlt` round-trips cannot be established) and `P% of S` (computed in double precision by OP_OF_PERCENT;
-   finding F44).  Everything else — all operators, string queries, the `of` family, `for..in` over ranges and
+   where WF' is WF without its exclusion: floating-point sub-expressions (Lean's `Float` is opaque to proofs, so
+   `toVm`/`vmToFlt` round-trips cannot be established).  Everything else — all operators, string queries, the `of`
+   family including `P% of` (exact integer arithmetic since the repair of finding F44), `for..in` over ranges and
    enumerations, `for..of`, arbitrary nesting (up to the 4 loop levels the compiler allows) — is covered by
    `compile_correct_partial` below.  The remaining clauses of WF are not restrictions of the fragment but the exact
    conditions under which libyara's code is correct: they exclude the situations of findings F14 (an integer equal to
@@ -277,9 +419,9 @@ theorem compile_correct (env : Env) (henv : EnvOk env) (cond : Expr) (hwf : WF' 
    of stepping past INT64_MAX, and the model's `iterAdvance` does the same.  F43 — loop bodies summed instead of counted — is repaired in exec.c; the model's OP_ITER_CONDITION normalises the
    body value like the code does, and the raw value a short-circuited `or` leaves on the stack is handled by `WordOK`.) -/
 
-/-- **compile_correct** (all constructs except floats and `P% of`): for every environment whose memory blocks lie in
+/-- **compile_correct** (all constructs except floats): for every environment whose memory blocks lie in
     the lower half of the address space and every condition satisfying `WF` (well-typed as the compiler types it; no
-    float, no `P% of`; none of the situations of findings F14/F42), running the code that `compile` emits — the
+    float; none of the situations of findings F14/F42), running the code that `compile` emits — the
     mirror of grammar.y's actions: typed opcode selection, OP_STR_TO_BOOL, short-circuit jumps with their fix-ups,
     end-of-list markers, the loop template with 3 internal + 1 user variable per nesting level and the
     ITER_NEXT / ITER_CONDITION / ITER_END protocol — on the VM model, whose pure opcodes are `Gen.VmOps` as
@@ -357,5 +499,17 @@ example : let env : Env := ⟨[], [], 0, [], []⟩
     simp at hb
   · simp [WF, tyOf, UNDEF, INT64_MIN, INT64_MAX, intRange, eval, ctxOfEnv, ValOk]
   · simp [ruleVerdict, eval, asBool, truthy, intRange, loopHolds, quantOf, quantHolds, countTrue, vCmp, cmpInt]
+
+/-- non-vacuity (`P% of`, inside compile_correct since the repair of F44): `50% of ($a, $b)` with only `$a` found -/
+example : let env : Env := ⟨[[(0, 2)], []], [(0, [97, 98])], 2, [], []⟩
+    let cond := Expr.pctStr (.int 50) [0, 1]
+    EnvOk env ∧ WF env (ctxOfEnv env) {} cond ∧ ruleVerdict env cond = true := by
+  refine ⟨?_, ?_, ?_⟩
+  · intro b hb
+    simp at hb
+    subst hb
+    decide
+  · simp [WF, tyOf, UNDEF, INT64_MIN, INT64_MAX]
+  · simp [ruleVerdict, eval, pctHolds, asBool, truthy, strFound, Env.matchesOf]
 
 end YaraModel.Cond
